@@ -316,6 +316,12 @@ def check_write(case: dict) -> list[tuple[str, str]]:
     via = case.get("via")
     binds = W_BINDINGS if case.get("ns") else ()
 
+    def kept(ser, containers):
+        # the caller collects the frames of the whole grouped stream first, writes them later
+        frames = list(ser.grouped_stream_to_frames((c for c in containers), opts))
+        for f in frames:
+            out.write(jwire.write_delimited([f.SerializeToString()]))
+
     def shared(ser, containers):
         # one explicit stream object of the given class serves every container in turn
         scls = via.split("-")[1]
@@ -327,7 +333,9 @@ def check_write(case: dict) -> list[tuple[str, str]]:
     if api == "generic":
         from pyjelly.integrations.generic import serialize as ser  # noqa: PLC0415
 
-        if via:
+        if via == "frames-kept":
+            kept(ser, [DR.g_sink(g, binds) for g in inputs])
+        elif via:
             shared(ser, [DR.g_sink(g) for g in inputs if g])
         else:
             ser.grouped_stream_to_file((DR.g_sink(g, binds) for g in inputs), out, options=opts)
@@ -347,7 +355,9 @@ def check_write(case: dict) -> list[tuple[str, str]]:
                 ds.add((s, p, o, ds.get_context(gn)))
             return ds
 
-        if via:
+        if via == "frames-kept":
+            kept(ser, [mk(g) for g in inputs])
+        elif via:
             shared(ser, [mk(g) for g in inputs if g])
         else:
             ser.grouped_stream_to_file((mk(g) for g in inputs), out, options=opts)
@@ -402,7 +412,8 @@ def write_shard(job) -> dict:
                 acc.violation({"side": "write", "fail": kind, "api": api, "ns": True},
                               f"{msg} case={c2}", c2)
         if len(sym) <= 2 and any(sym):
-            for via in (("shared-triple",) if arity == 3 else ("shared-quad", "shared-graph")):
+            for via in (("shared-triple",) if arity == 3 else ("shared-quad", "shared-graph")) + (
+                    "frames-kept",):
                 c2 = {**case, "via": via}
                 acc.evals += 1
                 try:
